@@ -13,13 +13,17 @@ PROFILES = {
              owned=CONF_U | CONF_P, rand="control", c01=False, bonus=1, nrand=(600, 6000)),
  "C10": dict(universes=["U_C10"], invs=["Inv_Machine", "Inv_C10_Same", "Inv_C10_Least", "Inv_C01_Fill"],
              owned={"conf_evs", "conf_pevs", "conf_end", "conf_writes", "conf_out", "C10_Same", "C10_Least", "C01_Fill"},
-             rand="position", c01=True, bonus=1, nrand=(600, 6000)),
+             rand="position", c01=True, bonus=1, nrand=(600, 6000),
+             # described Move targets: conformance only (a pack writes the computed value, so the positions of a
+             # parse and of the following pack may differ without any fault)
+             extra=[("U_C10_Desc", ["Inv_Machine"], {"conf_evs", "conf_pevs", "conf_end", "conf_writes", "conf_out",
+                                                     "conf_outcome", "conf_values"})]),
  "C12": dict(universes=["U_C12", "U_C10_Flat"], invs=["Inv_Machine", "Inv_C12_Shape"],
              owned={"conf_err", "conf_perr", "conf_err_depth", "C12_Shape", "C12.unpack_raises_only_PacketError",
                     "C12.pack_raises_only_PacketError", "C12.str_total", "C12.phase", "C12.silent",
                     "C12.not_bytes", "C04_OverAccept"},
              rand="mixed", c01=False, bonus=1, nrand=(800, 8000)),
- "C04": dict(universes=["U_C06", "U_C07_24", "U_C12"], invs=["Inv_Machine", "Inv_C04_Exact"],
+ "C04": dict(universes=["U_C06", "U_C07_24", "U_C12", "U_C04_Lone"], invs=["Inv_Machine", "Inv_C04_Exact"],
              owned={"C04_Exact", "C04_OverAccept"}, rand="mixed", c01=False, bonus=1, nrand=(800, 8000)),
  "C01": dict(universes=["U_C01"], quick_universes=["U_C01_Q"], invs=["Inv_Machine", "Inv_C01_Bytes", "Inv_C01_Fill", "Inv_C01_Len",
                                         "Inv_C01_OverlapRaises", "Inv_C01_RaiseOnlyOnOverlap"],
@@ -45,6 +49,8 @@ def run(pid, tier, seed, gens=None):
     bonus = 0 if quick else P["bonus"]
     for u in (P.get("quick_universes") if quick and P.get("quick_universes") else P["universes"]):
         pp.exhaustive_part(v, u, P["invs"], gens, P["owned"], lenbonus=bonus, c01=P["c01"], nparts=8 if quick else 48)
+    for (u, invs, owned) in P.get("extra", []):
+        pp.exhaustive_part(v, u, invs, gens, owned, lenbonus=bonus, c01=False, nparts=8)
     if pid == "C04":
         # the truncation relation itself, on the specification: two machines in lockstep on raw and raw[:k]
         from concurrent.futures import ThreadPoolExecutor
